@@ -276,8 +276,31 @@ def run_api_job(spec):
             heap_keep.append(batch[::2])
         events.append('heap %d %d' % (idx, n))
 
+    def apply_mut(call):
+        # the CALLER edits its own objects between calls (sequential histories only); the snapshots follow, so that
+        # I2 keeps meaning "the callee changed it" and the references are computed from the caller's current values
+        for m in call.get('mut') or []:
+            if 'l' in m:
+                obj = lists[m['l']]
+                if isinstance(obj, list):
+                    if m['op'] == 'append':
+                        obj.append(m['v'])
+                        list_snap[m['l']].append(m['v'])
+                    elif m['op'] == 'pop' and obj:
+                        obj.pop()
+                        if list_snap[m['l']]:
+                            list_snap[m['l']].pop()
+                    elif m['op'] == 'clear':
+                        del obj[:]
+                        del list_snap[m['l']][:]
+            elif 'o' in m:
+                setattr(opts[m['o']], RAO_FIELDS[m['f']], m['v'])
+                opt_snap[m['o']][RAO_FIELDS[m['f']]] = m['v']
+            events.append('mut %s' % wire.dumps(m))
+
     def do_call(idx, tid):
         call = calls[idx]
+        apply_mut(call)
         ls, os_ = objs_of(call)
         perturb(idx)
         fn = build_call(pm, call, sources, lists, opts)
